@@ -269,4 +269,48 @@ theorem readDiffs_incr (d lo : Nat) (raws : List (Option Nat)) (suf : Bits) (hd 
       simp only [List.length_cons, List.flatMap_cons, Spec.incrBits, List.append_assoc, readDiffs,
         readDiff_value d _ _ hd h64 h2, ih', Option.map_some, this]
 
+/-! ### the encoder's column is the spec column with the encoder's width -/
+
+/-- the increment width `encIntColumn` uses -/
+def encoderWidth (allEqual : Bool) (raws : List (Option Nat)) : Nat :=
+  if allEqual then 0
+  else match Spec.colMin raws, Spec.colMax raws with
+    | some lo, some hi => nbitsForUInt (hi - lo + 1)
+    | _, _ => 0
+
+theorem intColumnBits_eq (w : Nat) (raws : List (Option Nat)) (lo hi : Nat)
+    (hmin : Spec.colMin raws = some lo) (hmax : Spec.colMax raws = some hi)
+    (hw : 0 < w) (hlo : lo < 2 ^ w) (hnd : nbitsForUInt (hi - lo + 1) ≤ 63) :
+    intColumnBits (raws.map (Option.map Int.ofNat)) w =
+      .ok (Spec.intColumnBitsWith (nbitsForUInt (hi - lo + 1)) raws w) := by
+  obtain ⟨_, hlomin⟩ := colMin_some raws lo hmin
+  obtain ⟨himem, himax⟩ := colMax_some raws hi hmax
+  have hlohi : lo ≤ hi := hlomin hi himem
+  have hx : ((hi : Int) - (lo : Int) + 1).toNat = hi - lo + 1 := by omega
+  have hpos := nbitsForUInt_pos (hi - lo + 1)
+  have hfit := nbitsForUInt_fits (hi - lo + 1)
+  have hnz : nbitsForUInt (hi - lo + 1) ≠ 0 := by omega
+  have h6 : nbitsForUInt (hi - lo + 1) < 2 ^ 6 := by simp; omega
+  simp only [intColumnBits, minmaxOpt_map_some raws lo hi hmin hmax, hx, Spec.intColumnBitsWith,
+    hmin, hnz, if_false, catBits, fieldUInt_nat lo w hw hlo, fieldUInt_nat _ 6 (by omega) h6,
+    List.map_map]
+  rw [catBits_map_ok raws _ (Spec.incrBits (nbitsForUInt (hi - lo + 1)) lo)]
+  · simp only [List.append_assoc]
+  · intro r hr
+    cases r with
+    | none =>
+      simp only [Function.comp, Option.map_none, Spec.incrBits]
+      exact fieldUInt_missing _ hpos (by omega)
+    | some v =>
+      have h1 := hlomin v hr
+      have h2 := himax v hr
+      have hc : (Int.ofNat v) - (lo : Int) = ((v - lo : Nat) : Int) := by
+        simp only [Int.ofNat_eq_natCast]; omega
+      simp only [Function.comp, Option.map_some, Spec.incrBits, hc]
+      exact fieldUInt_nat _ _ hpos (by omega)
+
+theorem headD_map_ofNat (raws : List (Option Nat)) :
+    (raws.map (Option.map Int.ofNat)).headD none = (raws.headD none).map Int.ofNat := by
+  cases raws <;> rfl
+
 end Bufr
